@@ -105,6 +105,77 @@ class InterpR(Interp7):
     def __init__(self, mod, externals=None, opaque=()):
         Interp7.__init__(self, mod, externals, opaque)
         self.tracked = {}
+        self.joins = {}
+        self.join_seen = set()
+
+    # -- join of path states that differ only in a constant chosen by floating-point comparisons ----------------
+    @staticmethod
+    def const_tree(f, v, depth=0):
+        """constants a value can take when it is a constant or a select tree over constants, else None"""
+        if v.k == 'ci':
+            return {v.ival}
+        if v.k == 'inst' and depth < 4 and f.insts[v.id].op == 'select':
+            a = InterpR.const_tree(f, f.insts[v.id].ops[1], depth + 1)
+            b = InterpR.const_tree(f, f.insts[v.id].ops[2], depth + 1)
+            if a is not None and b is not None:
+                return a | b
+        return None
+
+    def plan_joins(self, fn):
+        """integer phis outside loops that merge at least three constants: the states arriving over those edges are
+        replaced by one state in which the phi is any value of the constants' range, provided the states are otherwise
+        equal (a sound over-approximation that removes one path per constant)"""
+        inloop = set()
+        for L in fn.loops:
+            inloop |= set(L['blocks'])
+        for b in fn.blocks:
+            if b in inloop:
+                continue
+            for ph in [i for i in b.insts if i.op == 'phi' and i.ty.get('k') == 'int' and i.bits > 1]:
+                edges = {}
+                for (bb, v) in ph.incoming:
+                    cs = self.const_tree(fn, v)
+                    if cs is not None:
+                        w = ph.bits
+                        edges[bb] = set(c - (1 << w) if c >= (1 << (w - 1)) else c for c in (x % (1 << w) for x in cs))
+                allc = set().union(*edges.values()) if edges else set()
+                if len(allc) >= 3 and (fn.name, b.name) not in self.joins:
+                    dom = set(i.id for d in fn.blocks if d is not b and fn.dominates_block(d, b) for i in d.insts)
+                    self.joins[(fn.name, b.name)] = dict(phi=ph, edges=set(edges), lo=min(allc), hi=max(allc), dom=dom)
+
+    def fingerprint(self, fn, b, st, frm, plan):
+        env = st.frames[-1]
+        items = sorted((str(k), repr(v)) for k, v in env.items() if k[0] == 'a' or (k[0] == 'i' and k[1] in plan['dom']))
+        phis = []
+        for i in b.insts:
+            if i.op == 'phi' and i.id != plan['phi'].id:
+                for (bb, v) in i.incoming:
+                    if bb == frm.name:
+                        phis.append((i.id, repr(self.val(st, v, fn))))
+        return (frozenset(st.cons.keys), frozenset(st.diseq), tuple(sorted((str(k), repr(v)) for k, v in st.mem.items())),
+                tuple(sorted((str(k), repr(v)) for k, v in st.ghost.items())), tuple(items), tuple(phis),
+                repr(st.frames[:-1]), tuple(sorted(str(k) for k in st.smashed)))
+
+    def run_function(self, fn, st, args):
+        if len(st.frames) == 1:
+            self.join_seen = set()
+        return Interp7.run_function(self, fn, st, args)
+
+    def exec_block(self, fn, b, st, frm, rets, skip_phis=False):
+        plan = self.joins.get((fn.name, b.name))
+        if plan is None or frm is None or skip_phis or frm.name not in plan['edges']:
+            return Interp7.exec_block(self, fn, b, st, frm, rets, skip_phis)
+        fp = (fn.name, b.name, self.recording) + self.fingerprint(fn, b, st, frm, plan)
+        if fp in self.join_seen:
+            return []
+        self.join_seen.add(fp)
+        self.eval_phis(fn, b, st, frm)
+        ph = plan['phi']
+        x = st.fresh_int(ph.bits, True, 'join_' + str(ph.name or ph.id))
+        st.cons.add_le(plan['lo'], x.s)
+        st.cons.add_le(x.s, plan['hi'])
+        st.env[('i', ph.id)] = x
+        return Interp7.exec_block(self, fn, b, st, frm, rets, skip_phis=True)
 
     def track(self, fn, L, cur, begin, end, peel):
         self.tracked[(fn.name, L['header'].name)] = (L, cur, begin, end, peel)
@@ -158,6 +229,7 @@ def ftoa_check(rep, mod):
             rstores[i.id] = ss
     cur = digit_cursor(f, IL, int_stores)
     it = InterpR(mod, externals={'strcpy': ext_strcpy, 'llvm.fabs.f32': ext_nop, 'llvm.fabs.f64': ext_nop})
+    it.plan_joins(f)
     it.track(f, IL, cur, 'int_begin', 'int_end', True)
     it.track(f, FL[0], digit_cursor(f, FL[0], frac_stores), 'frac_begin', 'frac_end', False)
     sink = Sink(rep, it)
